@@ -167,7 +167,7 @@ def units(tier, seed):
         for b in bodies:
             fx = {'p0': p0} if b is None else {'p0': p0, 'b': b}
             us.append(dict(id='b.heads.p0=%s%s' % (HEAD_PATTERNS[p0], '' if b is None else '.body%d' % b), kind='b', fixed=fx, quick=(tier == 'quick'),
-                           ob='C01.b', timeout=400 if tier == 'quick' else 1500, weight=150,
+                           ob='C01.b', timeout=400 if tier == 'quick' else 500, weight=150,
                            bounds='r(%s, P1) :- BODY.  P1 from %d patterns, BODY from %d bodies; second clause catch-all; <=2 symbolic facts; query modes %s'
                                   % (HEAD_PATTERNS[p0], len(HEAD_PATTERNS), len(BODY_TEXT), '0..2' if tier == 'quick' else '0..5')))
     for sk in skeletons(nf):
@@ -179,7 +179,7 @@ def units(tier, seed):
         for fx in parts:
             tag = ''.join('%s%d' % kv for kv in sorted(fx.items()))
             us.append(dict(id='a.%s.%s' % (sk['name'], tag or 'all'), skeleton=sk['name'], nf=nf, fixed=fx, ob='C01.a',
-                           timeout=400 if tier == 'quick' else 1200, weight=100,
+                           timeout=400 if tier == 'quick' else 500, weight=100,
                            cap=12 if tier == 'quick' else 16,
                            bounds='skeleton %s, <=%d facts per dynamic predicate, modes fixed: %r' % (sk['name'], nf, fx)))
     return us
